@@ -49,3 +49,9 @@ Print Assumptions C12_remove_is_map_update.
 Theorem C12_any_operation_sequence_keeps_keys_canonical : forall ops, Forall cop_utf8 ops -> KI cfg (crun cfg ops).
 Proof. apply crun_KI; sc. Qed.
 Print Assumptions C12_any_operation_sequence_keeps_keys_canonical.
+(* a PURL built with a checksum in any equivalent spelling (entry order, hex case) is the same PURL *)
+Theorem C12_equivalent_spellings_one_purl : forall t p v1 v2 m1 m2, QInv cfg (p_quals p) -> q_get cfg (p_quals p) s_checksum = Some v1 -> v1 <> [] -> v2 <> [] ->
+  cs_try_from cfg v1 = Ok m1 -> cs_try_from cfg v2 = Ok m2 -> NoDup (map fst m1) -> Permutation (map norm m1) (map norm m2) ->
+  build cfg G t (with_quals p (q_set cfg (p_quals p) s_checksum v2)) = build cfg G t p.
+Proof. apply build_checksum_spelling; sc. Qed.
+Print Assumptions C12_equivalent_spellings_one_purl.
